@@ -34,6 +34,20 @@ re_escape = z3.Function("re_escape", z3.StringSort(), z3.StringSort())
 DIGITS = z3.Plus(z3.Range("0", "9"))
 
 
+def _mentions_bound_var(t) -> bool:
+    seen = set()
+    stack = [t]
+    while stack:
+        x = stack.pop()
+        if x.get_id() in seen:
+            continue
+        seen.add(x.get_id())
+        if z3.is_const(x) and x.decl().kind() == z3.Z3_OP_UNINTERPRETED and x.decl().name().startswith("q_"):
+            return True
+        stack.extend(x.children())
+    return False
+
+
 def int_axioms(e: Engine, st: State, s):
     """What is assumed about int(s) and str.isdigit() (E-INT), with the code-point classes read from the
     CPython that runs eyecite: int() accepts 1..4300 decimal digits (Unicode Nd), agrees with str.to_int on
@@ -41,6 +55,8 @@ def int_axioms(e: Engine, st: State, s):
     such as superscripts; s.isdigit() <=> every character is an isdigit() character and s is non-empty."""
     from .cpy_tables import char_class, tables
     key = s.sexpr()
+    if "q_" in key and _mentions_bound_var(s):
+        return          # a term under a quantifier of a specification: facts about it with the bound variable free would say nothing
     done = st.__dict__.setdefault("_int_ax", set())
     if key in done:
         return
@@ -238,7 +254,7 @@ def apply_def(e: Engine, st: State, name: str, lam: ast.Lambda, args: List[SV]) 
     (keeps quantified invariants small; the function symbol is shared whenever the expanded body is identical)."""
     if not args or not all(a.ty.kind == "int" for a in args):
         return apply_lambda(e, st, lam, args)
-    vars_ = [z3.Int(f"{name}!a{i}") for i in range(len(args))]
+    vars_ = [z3.Int(f"q_{name}!a{i}") for i in range(len(args))]       # "q_": bound variable (no per-term facts are emitted for it)
     body = apply_lambda(e, st, lam, [SV(INT, v) for v in vars_])
     bt = e.truthy(st, body)
     key = (name, bt.sexpr())
